@@ -142,13 +142,20 @@ def plan(prop, pid, tier, seed):
     """Static job plan: enumerated prefixes first (must run), then seeded runs
     with an empty prefix.  Job i is a pure function of (pid, tier, seed, i)."""
     enum, n_seeded = prop.jobs(tier, seed)
+    # the first MIN_SEEDED seeded jobs are run whatever the wall-clock budget says (like the
+    # enumerated core): on a loaded machine the enumerated core alone can use up the budget,
+    # and a batch without seeded histories would be a much weaker check than the one described
+    MIN_SEEDED[pid] = min(n_seeded, getattr(prop, "MIN_SEEDED", 2000))
     return enum, n_seeded
+
+
+MIN_SEEDED = {}
 
 
 def job_at(pid, seed, enum, i):
     if i < len(enum):
         return (i, tuple(enum[i]), run_seed_for(seed, pid, i), True)
-    return (i, (), run_seed_for(seed, pid, i), False)
+    return (i, (), run_seed_for(seed, pid, i), i < len(enum) + MIN_SEEDED.get(pid, 0))
 
 
 def _worker(args):
@@ -176,8 +183,8 @@ def _worker(args):
         out = run_one(prop, prefix, rseed)
         ctx = out.ctx
         res["runs"] += 1
-        if must:
-            res["must_runs"] += 1
+        if index < len(enum):
+            res["must_runs"] += 1       # (enumerated cases only; the guaranteed seeded jobs count as seeded)
         res["cover"] |= ctx.cover_keys
         for k, v in ctx.faults.items():
             res["faults"][k] = res["faults"].get(k, 0) + v
@@ -580,7 +587,7 @@ def main_check(pid, tier, seed, budget_s=None):
         print("HARNESS-ERROR property=%s nondeterministic runs (jobs %s)" % (pid, det_bad))
     if must_skipped:
         rc = 2
-        print("HARNESS-ERROR property=%s %d enumerated cases not run within the hard wall cap" % (pid, must_skipped))
+        print("HARNESS-ERROR property=%s %d must-run cases (enumerated core and guaranteed seeded jobs) not run within the hard wall cap" % (pid, must_skipped))
     # distinct violation classes, deterministic order
     by_key = {}
     for v in sorted(viol, key=lambda v: (v[3], v[0])):
@@ -662,6 +669,7 @@ def main_check(pid, tier, seed, budget_s=None):
             "enumerated_cases": must_total,
             "enumerated_cases_run": must_runs,
             "seeded_cases_run": runs - must_runs,
+            "seeded_cases_guaranteed": MIN_SEEDED.get(pid, 0),
             "jobs_planned": total_jobs,
             "jobs_skipped_by_budget": sum(r["skipped"] for r in results),
             "distinct_coverage_keys": len(cover),
